@@ -1,1 +1,478 @@
+//! Controlled-scheduler model of the subset of rayon's API that a parallel-iterator user sees.
+//!
+//! Contract modelled (over-approximation of rayon's documented behaviour): every item of a parallel
+//! iterator is a task; a task runs its whole adapter chain atomically; tasks of all live regions —
+//! including regions opened by a running task, whose parent blocks until they finish — may run in ANY
+//! order; an indexed `collect` puts result i at position i; unindexed sinks (`for_each` side effects,
+//! `par_bridge`) observe execution order.
+//!
+//! Tasks run on real threads gated by a baton (exactly one entity runs at a time); every scheduling
+//! decision with more than one candidate is a recorded choice point. `sched::run(prefix, f)` executes
+//! `f` replaying `prefix` and taking choice 0 afterwards; a stateless DFS over the recorded choice
+//! points (see mc/inproc-sched) enumerates every schedule.
+use std::any::Any;
+use std::collections::{BTreeMap, BTreeSet, HashMap, HashSet};
+use std::hash::Hash;
+use std::panic::{catch_unwind, resume_unwind, AssertUnwindSafe};
+use std::sync::{Arc, Condvar, Mutex};
 
+pub mod sched {
+    use super::*;
+
+    #[derive(Default)]
+    pub(crate) struct State {
+        pub active: bool,
+        pub current: Option<u32>,
+        pub next_id: u32,
+        pub runnable: BTreeSet<u32>,
+        pub prefix: Vec<usize>,
+        pub pos: usize,
+        pub choices: Vec<(usize, usize)>,
+        pub order: Vec<u32>,
+        pub diverged: Option<String>,
+        pub regions: u64,
+        pub tasks: u64,
+    }
+
+    pub(crate) static STATE: Mutex<Option<State>> = Mutex::new(None);
+    pub(crate) static CV: Condvar = Condvar::new();
+
+    /// What one controlled execution did.
+    #[derive(Clone, Debug, Default)]
+    pub struct Outcome {
+        /// (alternative taken, number of alternatives) at every choice point
+        pub choices: Vec<(usize, usize)>,
+        /// entity ids in the order in which they were given the baton
+        pub order: Vec<u32>,
+        pub regions: u64,
+        pub tasks: u64,
+        /// set when the replayed prefix did not fit the choice points met (nondeterminism not owned)
+        pub diverged: Option<String>,
+    }
+
+    pub(crate) fn pick_next(st: &mut State) {
+        let cands: Vec<u32> = st.runnable.iter().copied().collect();
+        if cands.is_empty() {
+            st.current = None;
+            return;
+        }
+        let mut pick = 0usize;
+        if cands.len() > 1 {
+            if st.pos < st.prefix.len() {
+                pick = st.prefix[st.pos];
+                if pick >= cands.len() {
+                    st.diverged = Some(format!("choice point {}: prefix asks for alternative {} of {}", st.pos, pick, cands.len()));
+                    pick = 0;
+                }
+            }
+            st.pos += 1;
+            st.choices.push((pick, cands.len()));
+        }
+        let id = cands[pick];
+        st.runnable.remove(&id);
+        st.current = Some(id);
+        st.order.push(id);
+    }
+
+    /// Run `f` under the controlled scheduler, replaying `prefix` at the first choice points.
+    pub fn run<R>(prefix: &[usize], f: impl FnOnce() -> R) -> (R, Outcome) {
+        {
+            let mut g = STATE.lock().unwrap();
+            assert!(g.is_none(), "nested sched::run");
+            *g = Some(State { active: true, current: Some(0), next_id: 1, prefix: prefix.to_vec(), ..Default::default() });
+        }
+        let r = catch_unwind(AssertUnwindSafe(f));
+        let st = STATE.lock().unwrap().take().unwrap();
+        let mut out = Outcome { choices: st.choices, order: st.order, regions: st.regions, tasks: st.tasks, diverged: st.diverged };
+        if st.pos < st.prefix.len() && out.diverged.is_none() {
+            out.diverged = Some(format!("only {} choice points met, prefix has {}", st.pos, st.prefix.len()));
+        }
+        match r {
+            Ok(v) => (v, out),
+            Err(p) => resume_unwind(p),
+        }
+    }
+
+    pub fn is_active() -> bool {
+        STATE.lock().unwrap().as_ref().map(|s| s.active).unwrap_or(false)
+    }
+}
+
+type Thunk<'a, T> = Box<dyn FnOnce() -> Option<T> + Send + 'a>;
+
+/// Execute one parallel region: every thunk is a task. Results in item order (None = filtered out),
+/// plus the order in which the tasks were executed.
+fn run_region<'a, T: Send + 'a>(thunks: Vec<Thunk<'a, T>>) -> (Vec<Option<T>>, Vec<usize>) {
+    let n = thunks.len();
+    let active = sched::is_active();
+    if !active || n == 0 {
+        // outside an exploration: plain sequential execution in item order
+        let mut order = Vec::new();
+        let res = thunks.into_iter().enumerate().map(|(i, t)| {
+            order.push(i);
+            t()
+        }).collect();
+        return (res, order);
+    }
+    let results: Mutex<Vec<Option<Option<T>>>> = Mutex::new((0..n).map(|_| None).collect());
+    let exec_order: Mutex<Vec<usize>> = Mutex::new(Vec::new());
+    let panic_slot: Mutex<Option<Box<dyn Any + Send>>> = Mutex::new(None);
+    let remaining = Mutex::new(n);
+    // register the tasks (deterministic ids: item order) while holding the baton
+    let (me, ids): (u32, Vec<u32>) = {
+        let mut g = sched::STATE.lock().unwrap();
+        let st = g.as_mut().unwrap();
+        let me = st.current.expect("region opened by a thread that does not hold the baton");
+        let ids: Vec<u32> = (0..n).map(|_| {
+            let id = st.next_id;
+            st.next_id += 1;
+            st.runnable.insert(id);
+            id
+        }).collect();
+        st.regions += 1;
+        st.tasks += n as u64;
+        (me, ids)
+    };
+    std::thread::scope(|s| {
+        for (i, t) in thunks.into_iter().enumerate() {
+            let id = ids[i];
+            let results = &results;
+            let exec_order = &exec_order;
+            let panic_slot = &panic_slot;
+            let remaining = &remaining;
+            s.spawn(move || {
+                // wait for the baton
+                {
+                    let mut g = sched::STATE.lock().unwrap();
+                    while g.as_ref().unwrap().current != Some(id) {
+                        g = sched::CV.wait(g).unwrap();
+                    }
+                }
+                exec_order.lock().unwrap().push(i);
+                let r = catch_unwind(AssertUnwindSafe(t));
+                match r {
+                    Ok(v) => results.lock().unwrap()[i] = Some(v),
+                    Err(p) => {
+                        let mut ps = panic_slot.lock().unwrap();
+                        if ps.is_none() {
+                            *ps = Some(p);
+                        }
+                    }
+                }
+                // finish: maybe wake the parent, hand the baton on
+                let mut g = sched::STATE.lock().unwrap();
+                let st = g.as_mut().unwrap();
+                let mut rem = remaining.lock().unwrap();
+                *rem -= 1;
+                if *rem == 0 {
+                    st.runnable.insert(me);
+                }
+                sched::pick_next(st);
+                sched::CV.notify_all();
+            });
+        }
+        // the parent blocks until its region is complete and it is scheduled again
+        let mut g = sched::STATE.lock().unwrap();
+        {
+            let st = g.as_mut().unwrap();
+            sched::pick_next(st);
+            sched::CV.notify_all();
+        }
+        while g.as_ref().unwrap().current != Some(me) {
+            g = sched::CV.wait(g).unwrap();
+        }
+    });
+    if let Some(p) = panic_slot.into_inner().unwrap() {
+        resume_unwind(p);
+    }
+    let res = results.into_inner().unwrap().into_iter().map(|r| r.expect("task result")).collect();
+    (res, exec_order.into_inner().unwrap())
+}
+
+/// The one parallel-iterator type of this model: a list of per-item thunks.
+pub struct Par<'a, T> {
+    thunks: Vec<Thunk<'a, T>>,
+    /// false once the iterator lost its index (par_bridge): collect order = execution order
+    indexed: bool,
+}
+
+impl<'a, T: Send + 'a> Par<'a, T> {
+    fn from_items<I: IntoIterator<Item = T>>(items: I, indexed: bool) -> Par<'a, T> {
+        Par { thunks: items.into_iter().map(|x| Box::new(move || Some(x)) as Thunk<'a, T>).collect(), indexed }
+    }
+    pub fn map<R: Send + 'a, F: Fn(T) -> R + Send + Sync + 'a>(self, f: F) -> Par<'a, R> {
+        let f = Arc::new(f);
+        Par { indexed: self.indexed, thunks: self.thunks.into_iter().map(|t| { let f = f.clone(); Box::new(move || t().map(|x| f(x))) as Thunk<'a, R> }).collect() }
+    }
+    pub fn filter<F: Fn(&T) -> bool + Send + Sync + 'a>(self, f: F) -> Par<'a, T> {
+        let f = Arc::new(f);
+        Par { indexed: self.indexed, thunks: self.thunks.into_iter().map(|t| { let f = f.clone(); Box::new(move || t().filter(|x| f(x))) as Thunk<'a, T> }).collect() }
+    }
+    pub fn filter_map<R: Send + 'a, F: Fn(T) -> Option<R> + Send + Sync + 'a>(self, f: F) -> Par<'a, R> {
+        let f = Arc::new(f);
+        Par { indexed: self.indexed, thunks: self.thunks.into_iter().map(|t| { let f = f.clone(); Box::new(move || t().and_then(|x| f(x))) as Thunk<'a, R> }).collect() }
+    }
+    pub fn inspect<F: Fn(&T) + Send + Sync + 'a>(self, f: F) -> Par<'a, T> {
+        self.map(move |x| { f(&x); x })
+    }
+    pub fn enumerate(self) -> Par<'a, (usize, T)> {
+        Par { indexed: self.indexed, thunks: self.thunks.into_iter().enumerate().map(|(i, t)| Box::new(move || t().map(|x| (i, x))) as Thunk<'a, (usize, T)>).collect() }
+    }
+    pub fn zip<U: Send + 'a>(self, other: Par<'a, U>) -> Par<'a, (T, U)> {
+        Par { indexed: self.indexed && other.indexed, thunks: self.thunks.into_iter().zip(other.thunks).map(|(a, b)| Box::new(move || match (a(), b()) { (Some(x), Some(y)) => Some((x, y)), _ => None }) as Thunk<'a, (T, U)>).collect() }
+    }
+    pub fn with_min_len(self, _: usize) -> Self { self }
+    pub fn with_max_len(self, _: usize) -> Self { self }
+    pub fn len(&self) -> usize { self.thunks.len() }
+    pub fn is_empty(&self) -> bool { self.thunks.is_empty() }
+
+    /// Run the region; items in collect order.
+    fn drive(self) -> Vec<T> {
+        let indexed = self.indexed;
+        let (res, order) = run_region(self.thunks);
+        if indexed {
+            res.into_iter().flatten().collect()
+        } else {
+            let mut slots: Vec<Option<T>> = res;
+            order.into_iter().filter_map(|i| slots[i].take()).collect()
+        }
+    }
+    pub fn for_each<F: Fn(T) + Send + Sync + 'a>(self, f: F) {
+        let _ = self.map(f).drive();
+    }
+    pub fn collect<C: FromParallelIterator<T>>(self) -> C {
+        C::from_par_vec(self.drive())
+    }
+    pub fn collect_into_vec(self, target: &mut Vec<T>) {
+        *target = self.drive();
+    }
+    pub fn count(self) -> usize { self.drive().len() }
+    pub fn sum<S: std::iter::Sum<T>>(self) -> S { self.drive().into_iter().sum() }
+    pub fn min(self) -> Option<T> where T: Ord { self.drive().into_iter().min() }
+    pub fn max(self) -> Option<T> where T: Ord { self.drive().into_iter().max() }
+    pub fn any<F: Fn(T) -> bool + Send + Sync + 'a>(self, f: F) -> bool { self.map(f).drive().into_iter().any(|b| b) }
+    pub fn all<F: Fn(T) -> bool + Send + Sync + 'a>(self, f: F) -> bool { self.map(f).drive().into_iter().all(|b| b) }
+    /// reduce combines in execution order (rayon requires an associative op; a non-commutative one shows)
+    pub fn reduce<ID: Fn() -> T + Send + Sync, OP: Fn(T, T) -> T + Send + Sync>(self, identity: ID, op: OP) -> T {
+        let indexed = self.indexed;
+        let _ = indexed;
+        self.drive().into_iter().fold(identity(), |a, b| op(a, b))
+    }
+    pub fn fold<A: Send + 'a, ID: Fn() -> A + Send + Sync + 'a, F: Fn(A, T) -> A + Send + Sync + 'a>(self, identity: ID, f: F) -> Par<'a, A> {
+        // one fold bucket per item (the finest split rayon may choose)
+        self.map(move |x| f(identity(), x))
+    }
+    pub fn flat_map<R: Send + 'a, I: IntoIterator<Item = R>, F: Fn(T) -> I + Send + Sync + 'a>(self, f: F) -> Par<'a, R> {
+        // staged: the inner iterators are produced by one region, then flattened in index order
+        let indexed = self.indexed;
+        let parts: Vec<Vec<R>> = self.map(move |x| f(x).into_iter().collect::<Vec<R>>()).drive();
+        Par::from_items(parts.into_iter().flatten(), indexed)
+    }
+}
+
+impl<'a, T: Send + Sync + Clone + 'a> Par<'a, &'a T> {
+    pub fn cloned(self) -> Par<'a, T> { self.map(|x| x.clone()) }
+    pub fn copied(self) -> Par<'a, T> where T: Copy { self.map(|x| *x) }
+}
+
+pub trait FromParallelIterator<T> {
+    fn from_par_vec(v: Vec<T>) -> Self;
+}
+impl<T> FromParallelIterator<T> for Vec<T> {
+    fn from_par_vec(v: Vec<T>) -> Self { v }
+}
+impl<T> FromParallelIterator<T> for std::collections::VecDeque<T> {
+    fn from_par_vec(v: Vec<T>) -> Self { v.into_iter().collect() }
+}
+impl<K: Eq + Hash, V> FromParallelIterator<(K, V)> for HashMap<K, V> {
+    fn from_par_vec(v: Vec<(K, V)>) -> Self { v.into_iter().collect() }
+}
+impl<K: Ord, V> FromParallelIterator<(K, V)> for BTreeMap<K, V> {
+    fn from_par_vec(v: Vec<(K, V)>) -> Self { v.into_iter().collect() }
+}
+impl<K: Eq + Hash> FromParallelIterator<K> for HashSet<K> {
+    fn from_par_vec(v: Vec<K>) -> Self { v.into_iter().collect() }
+}
+impl<K: Ord> FromParallelIterator<K> for BTreeSet<K> {
+    fn from_par_vec(v: Vec<K>) -> Self { v.into_iter().collect() }
+}
+impl FromParallelIterator<String> for String {
+    fn from_par_vec(v: Vec<String>) -> Self { v.concat() }
+}
+impl<T, E, C: FromParallelIterator<T>> FromParallelIterator<Result<T, E>> for Result<C, E> {
+    fn from_par_vec(v: Vec<Result<T, E>>) -> Self {
+        let mut out = Vec::with_capacity(v.len());
+        for x in v {
+            out.push(x?);
+        }
+        Ok(C::from_par_vec(out))
+    }
+}
+impl<T, C: FromParallelIterator<T>> FromParallelIterator<Option<T>> for Option<C> {
+    fn from_par_vec(v: Vec<Option<T>>) -> Self {
+        let mut out = Vec::with_capacity(v.len());
+        for x in v {
+            out.push(x?);
+        }
+        Some(C::from_par_vec(out))
+    }
+}
+
+pub mod iter {
+    pub use super::{FromParallelIterator, Par};
+    use super::*;
+
+    /// Marker traits so that `use rayon::iter::{ParallelIterator, IndexedParallelIterator}` resolves;
+    /// the adapter and sink methods are inherent methods of `Par`.
+    pub trait ParallelIterator {}
+    pub trait IndexedParallelIterator {}
+    impl<'a, T> ParallelIterator for Par<'a, T> {}
+    impl<'a, T> IndexedParallelIterator for Par<'a, T> {}
+
+    pub trait IntoParallelIterator<'a> {
+        type Item: Send + 'a;
+        fn into_par_iter(self) -> Par<'a, Self::Item>;
+    }
+    impl<'a, T: Send + 'a> IntoParallelIterator<'a> for Vec<T> {
+        type Item = T;
+        fn into_par_iter(self) -> Par<'a, T> { Par::from_items(self, true) }
+    }
+    impl<'a, T: Sync + 'a> IntoParallelIterator<'a> for &'a Vec<T> {
+        type Item = &'a T;
+        fn into_par_iter(self) -> Par<'a, &'a T> { Par::from_items(self.iter(), true) }
+    }
+    impl<'a, T: Sync + 'a> IntoParallelIterator<'a> for &'a [T] {
+        type Item = &'a T;
+        fn into_par_iter(self) -> Par<'a, &'a T> { Par::from_items(self.iter(), true) }
+    }
+    impl<'a, T: Send + 'a> IntoParallelIterator<'a> for &'a mut Vec<T> {
+        type Item = &'a mut T;
+        fn into_par_iter(self) -> Par<'a, &'a mut T> { Par::from_items(self.iter_mut(), true) }
+    }
+    impl<'a, T: Send + 'a> IntoParallelIterator<'a> for &'a mut [T] {
+        type Item = &'a mut T;
+        fn into_par_iter(self) -> Par<'a, &'a mut T> { Par::from_items(self.iter_mut(), true) }
+    }
+    impl<'a, T: Send + 'a> IntoParallelIterator<'a> for Option<T> {
+        type Item = T;
+        fn into_par_iter(self) -> Par<'a, T> { Par::from_items(self, true) }
+    }
+    macro_rules! range_impl {
+        ($($t:ty),*) => {$(
+            impl<'a> IntoParallelIterator<'a> for std::ops::Range<$t> {
+                type Item = $t;
+                fn into_par_iter(self) -> Par<'a, $t> { Par::from_items(self, true) }
+            }
+            impl<'a> IntoParallelIterator<'a> for std::ops::RangeInclusive<$t> {
+                type Item = $t;
+                fn into_par_iter(self) -> Par<'a, $t> { Par::from_items(self, true) }
+            }
+        )*};
+    }
+    range_impl!(u8, u16, u32, u64, usize, i32, i64, isize);
+    impl<'a, K: Send + 'a, V: Send + 'a> IntoParallelIterator<'a> for HashMap<K, V> {
+        type Item = (K, V);
+        fn into_par_iter(self) -> Par<'a, (K, V)> { Par::from_items(self, false) }
+    }
+
+    pub trait IntoParallelRefIterator<'a> {
+        type Item: Send + 'a;
+        fn par_iter(&'a self) -> Par<'a, Self::Item>;
+    }
+    impl<'a, T: Sync + 'a> IntoParallelRefIterator<'a> for Vec<T> {
+        type Item = &'a T;
+        fn par_iter(&'a self) -> Par<'a, &'a T> { Par::from_items(self.iter(), true) }
+    }
+    impl<'a, T: Sync + 'a> IntoParallelRefIterator<'a> for [T] {
+        type Item = &'a T;
+        fn par_iter(&'a self) -> Par<'a, &'a T> { Par::from_items(self.iter(), true) }
+    }
+    impl<'a, K: Sync + 'a, V: Sync + 'a> IntoParallelRefIterator<'a> for HashMap<K, V> {
+        type Item = (&'a K, &'a V);
+        fn par_iter(&'a self) -> Par<'a, (&'a K, &'a V)> { Par::from_items(self.iter(), false) }
+    }
+    pub trait IntoParallelRefMutIterator<'a> {
+        type Item: Send + 'a;
+        fn par_iter_mut(&'a mut self) -> Par<'a, Self::Item>;
+    }
+    impl<'a, T: Send + 'a> IntoParallelRefMutIterator<'a> for Vec<T> {
+        type Item = &'a mut T;
+        fn par_iter_mut(&'a mut self) -> Par<'a, &'a mut T> { Par::from_items(self.iter_mut(), true) }
+    }
+    impl<'a, T: Send + 'a> IntoParallelRefMutIterator<'a> for [T] {
+        type Item = &'a mut T;
+        fn par_iter_mut(&'a mut self) -> Par<'a, &'a mut T> { Par::from_items(self.iter_mut(), true) }
+    }
+
+    /// `iterator.par_bridge()`: items are handed out in iterator order but carry no index.
+    pub trait ParallelBridge<'a>: Sized {
+        type Item: Send + 'a;
+        fn par_bridge(self) -> Par<'a, Self::Item>;
+    }
+    impl<'a, I: Iterator + Send> ParallelBridge<'a> for I
+    where
+        I::Item: Send + 'a,
+    {
+        type Item = I::Item;
+        fn par_bridge(self) -> Par<'a, I::Item> { Par::from_items(self, false) }
+    }
+
+    pub trait ParallelSliceMut<T: Send> {
+        fn par_sort(&mut self) where T: Ord;
+        fn par_sort_unstable(&mut self) where T: Ord;
+        fn par_sort_by_key<K: Ord, F: Fn(&T) -> K + Sync>(&mut self, f: F);
+    }
+    impl<T: Send> ParallelSliceMut<T> for [T] {
+        fn par_sort(&mut self) where T: Ord { self.sort() }
+        fn par_sort_unstable(&mut self) where T: Ord { self.sort_unstable() }
+        fn par_sort_by_key<K: Ord, F: Fn(&T) -> K + Sync>(&mut self, f: F) { self.sort_by_key(f) }
+    }
+}
+
+pub mod prelude {
+    pub use super::iter::*;
+}
+pub mod slice {
+    pub use super::iter::ParallelSliceMut;
+}
+
+/// `rayon::join`: two tasks in one region.
+pub fn join<A, B, RA: Send, RB: Send>(a: A, b: B) -> (RA, RB)
+where
+    A: FnOnce() -> RA + Send,
+    B: FnOnce() -> RB + Send,
+{
+    enum E<X, Y> { L(X), R(Y) }
+    let thunks: Vec<Thunk<'_, E<RA, RB>>> = vec![Box::new(move || Some(E::L(a()))), Box::new(move || Some(E::R(b())))];
+    let (res, _) = run_region(thunks);
+    let mut it = res.into_iter();
+    match (it.next().flatten(), it.next().flatten()) {
+        (Some(E::L(x)), Some(E::R(y))) => (x, y),
+        _ => unreachable!(),
+    }
+}
+
+pub fn current_num_threads() -> usize { 2 }
+pub fn current_thread_index() -> Option<usize> { None }
+
+#[derive(Debug)]
+pub struct ThreadPoolBuildError;
+impl std::fmt::Display for ThreadPoolBuildError {
+    fn fmt(&self, f: &mut std::fmt::Formatter<'_>) -> std::fmt::Result { write!(f, "thread pool build error") }
+}
+impl std::error::Error for ThreadPoolBuildError {}
+#[derive(Default)]
+pub struct ThreadPoolBuilder;
+pub struct ThreadPool;
+impl ThreadPoolBuilder {
+    pub fn new() -> Self { ThreadPoolBuilder }
+    pub fn num_threads(self, _: usize) -> Self { self }
+    pub fn thread_name<F: FnMut(usize) -> String + 'static>(self, _: F) -> Self { self }
+    pub fn stack_size(self, _: usize) -> Self { self }
+    pub fn build_global(self) -> Result<(), ThreadPoolBuildError> { Ok(()) }
+    pub fn build(self) -> Result<ThreadPool, ThreadPoolBuildError> { Ok(ThreadPool) }
+}
+impl ThreadPool {
+    pub fn install<R: Send, F: FnOnce() -> R + Send>(&self, f: F) -> R { f() }
+    pub fn current_num_threads(&self) -> usize { 2 }
+}
